@@ -124,6 +124,18 @@ def tree (allow : List PolicyRule) : Node :=
 def validate (allow requests : List PolicyRule) : List Rule :=
   (expand requests).filter fun r => !(tree allow).allowed r.path
 
+/-- Expand under a context: it checks `ctx.Done()` before appending each granular rule, so with
+a context that is already done (deadline exceeded, cancelled) it fails as soon as there is
+one rule to append, and returns the empty list otherwise. `none` = `ctx.Err()`. -/
+def expandCtx (done : Bool) (rs : List PolicyRule) : Option (List Rule) :=
+  if done && !(expand rs).isEmpty then none else some (expand rs)
+
+/-- ValidatePermissionRequests (after the Get) under a context -/
+def validateCtx (done : Bool) (allow requests : List PolicyRule) : Option (List Rule) :=
+  match expandCtx done allow, expandCtx done requests with
+  | some _, some _ => some (validate allow requests)
+  | _, _ => none
+
 /-! ## specification: Kubernetes "covers" and the authorizer -/
 
 /-- one granular Kubernetes sub-rule, as produced by BreakdownRule -/
@@ -290,7 +302,15 @@ structure Store where
   deploys : List Deployment  -- in List order (by namespace/name)
   roles : List Role
   bindings : List Binding
+  /-- the API server's resourceVersion counter -/
+  rv : Nat := 0
+  /-- resourceVersion of each ClusterRole / ClusterRoleBinding (first entry wins, absent = 0) -/
+  roleRV : List (String × Nat) := []
+  bindingRV : List (String × Nat) := []
   deriving Repr
+
+/-- metadata.resourceVersion of the named object -/
+def rvOf (l : List (String × Nat)) (n : String) : Nat := (l.lookup n).getD 0
 
 /-- schema.ParseGroupVersion(apiVersion).Group (the empty group on a parse error) -/
 def groupOfAPIVersion (av : String) : String :=
@@ -397,14 +417,15 @@ inductive Req where
   | listDeployments
   | getRole (name : String)
   | createRole (r : Role)
-  | updateRole (r : Role)
+  /-- Update carrying metadata.resourceVersion `rv` (optimistic concurrency) -/
+  | updateRole (r : Role) (rv : Nat)
   | getBinding (name : String)
   | createBinding (b : Binding)
-  | updateBinding (b : Binding)
+  | updateBinding (b : Binding) (rv : Nat)
   deriving Repr
 
 def Req.isWrite : Req → Bool
-  | .createRole _ | .updateRole _ | .createBinding _ | .updateBinding _ => true
+  | .createRole _ | .updateRole _ _ | .createBinding _ | .updateBinding _ _ => true
   | _ => false
 
 inductive Resp where
@@ -412,8 +433,8 @@ inductive Resp where
   | prs (l : List PR)
   | xrd (d : XRD)
   | deploys (l : List Deployment)
-  | role (r : Role)
-  | binding (b : Binding)
+  | role (r : Role) (rv : Nat)
+  | binding (b : Binding) (rv : Nat)
   | done
   | notFound
   | alreadyExists
@@ -434,19 +455,27 @@ def exec (s : Store) : Req → Store × Resp
   | .listPRs f => (s, .prs (s.prs.filter (·.family = f)))
   | .getXRD n => (s, match s.xrds.find? (·.name = n) with | some d => .xrd d | none => .notFound)
   | .listDeployments => (s, .deploys s.deploys)
-  | .getRole n => (s, match s.roles.find? (·.name = n) with | some r => .role r | none => .notFound)
+  | .getRole n => (s, match s.roles.find? (·.name = n) with | some r => .role r (rvOf s.roleRV n) | none => .notFound)
   | .createRole r =>
       if s.roles.any (·.name = r.name) then (s, .alreadyExists)
-      else ({ s with roles := s.roles ++ [r] }, .done)
-  | .updateRole r =>
-      if s.roles.any (·.name = r.name) then ({ s with roles := setRole r s.roles }, .done)
+      else ({ s with roles := s.roles ++ [r], rv := s.rv + 1, roleRV := (r.name, s.rv + 1) :: s.roleRV }, .done)
+  | .updateRole r v =>
+      if s.roles.any (·.name = r.name) then
+        if rvOf s.roleRV r.name = v then
+          if setRole r s.roles = s.roles then (s, .done)   -- nothing changes: the API server does not write, the resourceVersion stays
+          else ({ s with roles := setRole r s.roles, rv := s.rv + 1, roleRV := (r.name, s.rv + 1) :: s.roleRV }, .done)
+        else (s, .conflict)   -- the object has been modified since it was read
       else (s, .notFound)
-  | .getBinding n => (s, match s.bindings.find? (·.name = n) with | some b => .binding b | none => .notFound)
+  | .getBinding n => (s, match s.bindings.find? (·.name = n) with | some b => .binding b (rvOf s.bindingRV n) | none => .notFound)
   | .createBinding b =>
       if s.bindings.any (·.name = b.name) then (s, .alreadyExists)
-      else ({ s with bindings := s.bindings ++ [b] }, .done)
-  | .updateBinding b =>
-      if s.bindings.any (·.name = b.name) then ({ s with bindings := setBinding b s.bindings }, .done)
+      else ({ s with bindings := s.bindings ++ [b], rv := s.rv + 1, bindingRV := (b.name, s.rv + 1) :: s.bindingRV }, .done)
+  | .updateBinding b v =>
+      if s.bindings.any (·.name = b.name) then
+        if rvOf s.bindingRV b.name = v then
+          if setBinding b s.bindings = s.bindings then (s, .done)
+          else ({ s with bindings := setBinding b s.bindings, rv := s.rv + 1, bindingRV := (b.name, s.rv + 1) :: s.bindingRV }, .done)
+        else (s, .conflict)
       else (s, .notFound)
 
 /-- what the controller sees when the call is not applied: an injected conflict is a
@@ -486,14 +515,15 @@ def applyRoles (uid : String) : List Role → P
       | .notFound => .call (.createRole cr) fun
           | .done => applyRoles uid rest
           | .conflict => .ret .requeue
-          | _ => .ret .err
-      | .role cur =>
+          | _ => .ret .err            -- AlreadyExists included: the error is returned, nothing is retried
+      | .role cur rv =>
           if notControllable uid cur.ctrl then .ret .err
           else if !rolesDiffer cur cr then applyRoles uid rest   -- errNotAllowed ⇒ continue
-          else .call (.updateRole cr) fun
+          else .call (.updateRole cr rv) fun   -- m.SetResourceVersion(current.GetResourceVersion())
             | .done => applyRoles uid rest
             | .conflict => .ret .requeue
-            | _ => .ret .err
+            | _ => .ret .err          -- NotFound included
+      | .conflict => .ret .requeue    -- kerrors.IsConflict sees through "cannot get object"
       | _ => .ret .err
 
 structure Cfg where
@@ -513,8 +543,8 @@ def withValidation (cfg : Cfg) (p : PR) (k : List Rule → P) : P :=
   match cfg.allowRole with
   | none => k (expand p.requests)
   | some a => .call (.getRole a) fun
-    | .role ar => k (validate ar.rules p.requests)
-    | _ => .ret .err
+    | .role ar _ => k (validate ar.rules p.requests)
+    | _ => .ret .err      -- whatever the error class: "cannot validate permission requests"
 
 /-- roles.Reconciler.Reconcile -/
 def reconcile (cfg : Cfg) (name : String) : P :=
@@ -563,15 +593,128 @@ def reconcileBinding (name : String) : P :=
                 | .done => .ret .ok
                 | .conflict => .ret .requeue
                 | _ => .ret .err
-            | .binding cur =>
+            | .binding cur rv =>
                 if notControllable p.uid cur.ctrl then .ret .err
                 else if !bindingsDiffer cur rb then .ret .ok
-                else .call (.updateBinding rb) fun
+                else .call (.updateBinding rb rv) fun
                   | .done => .ret .ok
                   | .conflict => .ret .requeue
                   | _ => .ret .err
+            | .conflict => .ret .requeue
             | _ => .ret .err
         | _ => .ret .err
     | _ => .ret .err
+
+/-! ## the world around one reconcile: other writers, the informer cache, error classes
+
+`World` is everything outside the program: the fault plan, what OTHER clients do to the store
+right before API call `k` (`env`: another controller, another replica, an administrator, the
+garbage collector), what the informer cache serves to a READ at call `k` (`view`: identity =
+fresh; an older store = lag; a store lacking an object = a miss) and an error reply of a given
+class injected at call `k` (`inj`; the call is not applied).  Reads go through the cached
+client (`mgr.GetClient()`), writes go to the API server.  `run sem plan` is the special case
+without other writers, with a fresh cache and no injected class (`runW_plain`, Proofs/C18Interf). -/
+
+/-- the error classes the code distinguishes (everything else – Forbidden, Invalid, a
+transport error that is Temporary(), context deadline exceeded – is `other`) -/
+inductive ErrRep where
+  | notFound | alreadyExists | conflict | other
+  deriving DecidableEq, Repr
+
+def ErrRep.toResp : ErrRep → Resp
+  | .notFound => .notFound
+  | .alreadyExists => .alreadyExists
+  | .conflict => .conflict
+  | .other => .other
+
+structure World where
+  plan : Plan
+  env : Env Store
+  view : Nat → Store → Store
+  inj : Nat → Option ErrRep
+
+/-- no other writer, fresh cache, no injected class -/
+def World.plain (plan : Plan) : World := ⟨plan, Env.none, fun _ s => s, fun _ => none⟩
+
+/-- the store a request is answered from: the served view for reads, the API server for writes -/
+def World.at (w : World) (k : Nat) (r : Req) (s : Store) : Store :=
+  if r.isWrite then w.env k s else w.view k (w.env k s)
+
+/-- final store and result in a world -/
+def runW (w : World) : Nat → P → Store → Store × Option Result
+  | _, .ret a, s => (s, some a)
+  | k, .call r c, s =>
+    match w.plan k with
+    | .crashBefore => (w.env k s, none)
+    | .crashAfter => ((exec (w.env k s) r).1, none)
+    | .fail => runW w (k+1) (c (errResp .fail r)) (w.env k s)
+    | .conflict => runW w (k+1) (c (errResp .conflict r)) (w.env k s)
+    | .ok =>
+      match w.inj k with
+      | some e => runW w (k+1) (c e.toResp) (w.env k s)
+      | none =>
+        if r.isWrite then runW w (k+1) (c (exec (w.env k s) r).2) (exec (w.env k s) r).1
+        else runW w (k+1) (c (exec (w.view k (w.env k s)) r).2) (w.env k s)
+
+/-- the program's own applied calls, in order: (the store the call was answered from, request) -/
+def ownW (w : World) : Nat → P → Store → List (Store × Req)
+  | _, .ret _, _ => []
+  | k, .call r c, s =>
+    match w.plan k with
+    | .crashBefore => []
+    | .crashAfter => [(w.at k r s, r)]
+    | .fail => ownW w (k+1) (c (errResp .fail r)) (w.env k s)
+    | .conflict => ownW w (k+1) (c (errResp .conflict r)) (w.env k s)
+    | .ok =>
+      match w.inj k with
+      | some e => ownW w (k+1) (c e.toResp) (w.env k s)
+      | none =>
+        if r.isWrite then (w.env k s, r) :: ownW w (k+1) (c (exec (w.env k s) r).2) (exec (w.env k s) r).1
+        else (w.view k (w.env k s), r) :: ownW w (k+1) (c (exec (w.view k (w.env k s)) r).2) (w.env k s)
+
+/-! ### what another writer can do (used by the driver; the theorems quantify over ALL `env`) -/
+
+inductive Edit where
+  | setRole (r : Role) | delRole (name : String)
+  | setPR (p : PR) | delPR (name : String)
+  | setXRD (d : XRD) | delXRD (name : String)
+  | setDeploy (d : Deployment) | delDeploy (ns name : String)
+  | setBinding (b : Binding) | delBinding (name : String)
+  deriving Repr
+
+/-- replace the element with the same key, or insert keeping the list sorted by key -/
+def upsertSorted {α : Type} (key : α → String) (x : α) : List α → List α
+  | [] => [x]
+  | y :: ys =>
+    if key y = key x then x :: ys
+    else if key x < key y then x :: y :: ys
+    else y :: upsertSorted key x ys
+
+def deployKey (d : Deployment) : String := d.ns ++ "/" ++ d.name
+
+/-- every edit by another writer gives the object a new resourceVersion -/
+def applyEdit (s : Store) : Edit → Store
+  | .setRole r =>
+      { s with roles := if s.roles.any (·.name = r.name) then setRole r s.roles else s.roles ++ [r],
+               rv := s.rv + 1, roleRV := (r.name, s.rv + 1) :: s.roleRV }
+  | .delRole n => { s with roles := s.roles.filter (·.name ≠ n) }
+  | .setPR p => { s with prs := upsertSorted (·.name) p s.prs }
+  | .delPR n => { s with prs := s.prs.filter (·.name ≠ n) }
+  | .setXRD d => { s with xrds := upsertSorted (·.name) d s.xrds }
+  | .delXRD n => { s with xrds := s.xrds.filter (·.name ≠ n) }
+  | .setDeploy d => { s with deploys := upsertSorted deployKey d s.deploys }
+  | .delDeploy ns n => { s with deploys := s.deploys.filter (fun d => deployKey d ≠ ns ++ "/" ++ n) }
+  | .setBinding b =>
+      { s with bindings := if s.bindings.any (·.name = b.name) then setBinding b s.bindings else s.bindings ++ [b],
+               rv := s.rv + 1, bindingRV := (b.name, s.rv + 1) :: s.bindingRV }
+  | .delBinding n => { s with bindings := s.bindings.filter (·.name ≠ n) }
+
+/-- what a cache that has not (yet) seen the named objects serves -/
+def hideNames (names : List String) (s : Store) : Store :=
+  { s with prs := s.prs.filter (fun p => !names.contains p.name),
+           xrds := s.xrds.filter (fun d => !names.contains d.name),
+           deploys := s.deploys.filter (fun d => !names.contains d.name),
+           roles := s.roles.filter (fun r => !names.contains r.name),
+           bindings := s.bindings.filter (fun b => !names.contains b.name) }
 
 end Xp.C18
